@@ -145,7 +145,7 @@ def run_one(hint, hint_py, value, draw, is_random, entry, strategy='O1'):
     log = list(spy.log)
     after = snapshot(obj)
     fresh = snapshot(U.to_python(value))
-    return {'verdict': verdict, 'trace': tokens(log),
+    return {'verdict': verdict, 'trace': tokens(log), 'reprs': spy.reprs,
             'mutations': [x for x in log if x[0].startswith('MUTATE')],
             'intact': after == fresh or _same_modulo_spy(after, fresh)}
 
